@@ -4,6 +4,7 @@ mod engine;
 mod explore;
 mod gen;
 mod jobs;
+mod jsongen;
 mod opseq;
 mod props;
 mod refs;
